@@ -51,12 +51,13 @@ type explorer struct {
 	stop  bool
 	inconSeen map[string]bool
 	violSeen map[string]bool
+	violCount map[string]int
 	deadline time.Time
 	stoppedForViolation bool
 }
 
 func (e *Engine) Explore(h *HarnessSpec, workers int, maxPaths int, budget time.Duration) *HarnessResult {
-	x := &explorer{eng: e, h: h, maxPaths: maxPaths, inconSeen: map[string]bool{}, violSeen: map[string]bool{}}
+	x := &explorer{eng: e, h: h, maxPaths: maxPaths, inconSeen: map[string]bool{}, violSeen: map[string]bool{}, violCount: map[string]int{}}
 	x.cond = sync.NewCond(&x.mu)
 	x.res = &HarnessResult{Name: h.Name, Status: map[string]int{}, Funcs: map[string]bool{}, Reached: map[string]bool{}, Asserts: map[string]int{}}
 	x.work = [][]int64{nil}
@@ -179,11 +180,11 @@ func (x *explorer) merge(out *PathResult) {
 		r.Inconcl = append(r.Inconcl, "unknown: "+out.detail)
 	}
 	for _, v := range out.violations {
-		key := v.Kind + "|" + v.Label + "|" + v.Detail
-		if x.violSeen[key] {
+		key := v.Kind + "|" + v.Label
+		if x.violCount[key] >= 6 {
 			continue
 		}
-		x.violSeen[key] = true
+		x.violCount[key]++
 		r.Violations = append(r.Violations, v)
 		// a counterexample decides the check: look for a little longer, then stop
 		grace := time.Now().Add(30 * time.Second)
